@@ -105,13 +105,33 @@ func (p *c04Patcher) Exit(n *ast.Node) {
 		ast.Patch(n, &ast.PairNode{Key: &ast.StringNode{Value: "k"}, Value: &ast.IntegerNode{Value: 1}})
 	case "leaf:closure":
 		ast.Patch(n, &ast.ClosureNode{Node: &ast.BoolNode{Value: true}})
+	case "foreign:unknown", "foreign:index", "foreign:call":
+		// nodes that carry a position of ANOTHER, longer text (a visitor that splices in a parsed macro): an
+		// error found in them is located beyond the end of the line, or beyond the last line
+		loc := file.Location{Line: 1 + p.at%3, Column: 40 + 977*(p.at%4)}
+		var nn ast.Node
+		switch p.kind {
+		case "foreign:unknown":
+			nn = &ast.IdentifierNode{Value: "Nope"}
+		case "foreign:index":
+			nn = &ast.IndexNode{Node: &ast.IdentifierNode{Value: "Xs"}, Index: &ast.IntegerNode{Value: 1000}}
+		default:
+			nn = &ast.FunctionNode{Name: "Boom", Arguments: []ast.Node{&ast.IntegerNode{Value: 1}}}
+		}
+		ast.Patch(n, nn)
+		ast.Walk(n, locSetter{loc})
 	}
 }
 
-var c04PatchKinds = []string{"identity", "same-kind", "constant", "constant-nil", "constant-slice", "wrap-unary", "wrap-method", "leaf:nil", "leaf:ident", "leaf:unknown-ident",
+type locSetter struct{ loc file.Location }
+
+func (locSetter) Enter(*ast.Node) {}
+func (l locSetter) Exit(n *ast.Node) { (*n).SetLocation(l.loc) }
+
+var c04PatchKinds = []string{"foreign:unknown", "foreign:index", "foreign:call", "identity", "same-kind", "constant", "constant-nil", "constant-slice", "wrap-unary", "wrap-method", "leaf:nil", "leaf:ident", "leaf:unknown-ident",
 	"leaf:string", "leaf:bool", "leaf:float", "leaf:pointer", "leaf:array", "leaf:map", "leaf:call", "leaf:builtin", "leaf:cond", "leaf:pair", "leaf:closure"}
 
-var c04Operators = []string{"+:JoinSp", "/:SafeDiv", "-:SubF", "+:Nope", "+:I", "==:Inc", "+:Sum", "*:Boom", "+:NilFn", "and:JoinSp"}
+var c04Operators = []string{"+:JoinSp", "/:SafeDiv", "-:SubF", "+:Nope", "+:I", "==:Inc", "+:Sum", "*:Boom", "+:NilFn", "and:JoinSp", "==:EqStringer", "!=:EqStringer", "==:NilMask"}
 var c04ConstExprs = []string{"Sq", "Div", "Rep", "Coalesce", "Nope", "I", "Boom", "NilFn", "Inc", "Fn", "V"}
 
 type c04Bad struct {
@@ -429,7 +449,7 @@ func c04Excluded(src string, o c04Opts, cfg *core.Config) string {
 
 // ---- generators
 
-var c04Hostile = []string{"", " ", "?.", "#", "..", "0x", "0x_", "1e", "1e+", ".5.", "1..", "a..b..c", "((((((((((", "))))", "[[[[[[", "{{{{", "}", "a ?: b ?: c", "a ? : b", "nil?.a", "#.a", ".a", "#",
+var c04Hostile = []string{"nil == S", "(true ? nil : nil) == S2", "nil != 'a'", "nil == nil", "S == nil", "P == 'a'", "N.PE?.Next == S", "", " ", "?.", "#", "..", "0x", "0x_", "1e", "1e+", ".5.", "1..", "a..b..c", "((((((((((", "))))", "[[[[[[", "{{{{", "}", "a ?: b ?: c", "a ? : b", "nil?.a", "#.a", ".a", "#",
 	"not", "not in", "a not in", "in", "matches", "a matches '['", "a matches b", "'\\", "\"\\x", "'\\u12'", "\"\\U0001F60\"", "\"", "'", "`", "@", "a.b.c.d.e.f", "a?.b?.c()", "a[b][c][:]", "a[:]", "a[::]", "a[1:2:3]",
 	"{a: 1, a: 2}", "{(1): 2}", "{1: 2}", "{'a': {b: [1, {c: 2}]}}", "[,]", "f(,)", "f(a,)", "all(a)", "all(a, b)", "all(a, {#}, 1)", "map(#, {#})", "len()", "len(1, 2)", "count(1..3, {#})", "filter(nil, {true})",
 	"nil", "nil == nil", "nil in nil", "nil in [nil]", "nil..nil", "-nil", "not nil", "nil.a", "nil()", "true()", "1()", "'a'()", "a()()", "a.b()()", "1 % 0", "1 / 0", "0 ** -1", "9223372036854775807 + 1", "9223372036854775808", "-9223372036854775808",
